@@ -19,7 +19,7 @@ EXEMPT = {
 
 
 def run(ctx):
-    from ..rules import scopeapi
+    from ..rules import scopeapi, crash2
     return [crash.rule_L1(ctx), crash.rule_L2(ctx), crash.rule_L3(ctx), crash.rule_L4(ctx), crash.rule_L5(ctx), crash.rule_L7(ctx),
             iface.rule_I1(ctx), iface.rule_I2(ctx), tree.rule_V1_visit(ctx), tree.rule_V2(ctx), handlers.rule_arg_guards(ctx),
-            gen2.rule_G2(ctx), gen.rule_G4(ctx), C09.rule_leading_zero(ctx), scopeapi.rule_L8(ctx)]
+            gen2.rule_G2(ctx), gen.rule_G4(ctx), C09.rule_leading_zero(ctx), scopeapi.rule_L8(ctx), crash2.rule_L9(ctx), crash2.rule_L10(ctx)]
